@@ -263,8 +263,41 @@ fn judge(acc: &mut Acc, what: &str, text: &str, delta: &str, dns: i128, v: &Verd
     }
 }
 
+/// Ageing leg (hooks-off binary, real clock, one process): layouts that expire *after* the
+/// process's first verification must be rejected once their expiry has passed.
+fn judge_ageing(acc: &mut Acc, extra: &mut serde_json::Map<String, Value>, results: Vec<(String, String, f64, f64, String)>) {
+    let mut accepted_before = 0;
+    let mut judged_after = 0;
+    for (label, expires, started, returned, outcome) in &results {
+        acc.evaluations += 1;
+        acc.nontrivial += 1;
+        let ok = outcome.starts_with("ok");
+        let phase = if *started >= 0.0 { "expired" } else if *returned < 0.0 { "not-expired" } else { "straddles-expiry" };
+        acc.outcome(&format!("ageing|{phase}|{}", if ok { "ok" } else { "err" }));
+        if *returned < 0.0 && ok {
+            accepted_before += 1;
+        }
+        if *started >= 0.0 {
+            judged_after += 1;
+            if ok {
+                acc.violation(
+                    "expired-accepted:after-earlier-verification-in-the-same-process",
+                    &format!("a process that had verified earlier accepted a layout {started:.1} s after its expiry ({label}, expires {expires})"),
+                    || json!({"level": "ageing", "label": label, "expires": expires, "started_past_expiry_s": started}),
+                );
+            }
+        }
+    }
+    if accepted_before == 0 {
+        acc.note("ageing-leg:no-layout-accepted-before-its-expiry(machine too slow: leg judged nothing about acceptance)");
+    }
+    extra.insert("ageing_leg".into(), json!({"verifications": results.len(), "accepted_before_expiry": accepted_before, "judged_after_expiry": judged_after, "note": "hooks-off binary, real clock: the process verifies once, then layouts (top-level and delegated) expiring 2-3 s later are verified before and (after a sleep) after their expiry"}));
+}
+
 pub fn run(tier: Tier) -> i32 {
     let mut c = Check::new("C06", "exploration", tier);
+    // the ageing leg sleeps for some seconds: run it beside everything else
+    let ageing = std::thread::spawn(crate::plain::ageing_plain);
     // oracle self-test: the independent reader agrees with chrono on the grid
     let fx = fixture();
     let owner = keys::get("ed6");
@@ -319,6 +352,7 @@ pub fn run(tier: Tier) -> i32 {
             }
         }
         acc.sample(|| json!({"level": "wall-clock", "cases": wall.len()}));
+        judge_ageing(&mut acc, &mut c.extra, ageing.join().unwrap_or_default());
         c.acc = acc;
         c.exhaustive = false;
         c.rule = "degraded run (no clock seam): expiry = real clock + {-1y,-1d,-1h,-2s,+1h,+1d,+1y} and the absolute years 0002, 1000, 1700 in 4 offset notations through the hooks-off binary under 4 process time zones".into();
@@ -422,11 +456,16 @@ pub fn run(tier: Tier) -> i32 {
         }
     }
     c.selftest("leg-accepts-unexpired:wall-clock", wall_ok > 0, "the hooks-off binary accepted no layout at all");
+    {
+        let mut acc = std::mem::take(&mut c.acc);
+        judge_ageing(&mut acc, &mut c.extra, ageing.join().unwrap_or_default());
+        c.acc = acc;
+    }
     c.extra.insert("wall_clock_leg".into(), json!({"cases": wall.len(), "accepted": wall_ok, "time_zones": crate::plain::TIME_ZONES, "note": "hooks-off binary, real clock, run once per process time zone; confirms the clock seam changes nothing and that the clock read itself is zone-independent"}));
     c.rule = format!(
         "grid: {} base instants x {} offset notations x {} sub-second spellings x {} separator/case styles (+ leap-second spelling) x {} verification times (expiry + delta); each point is one in_toto_verify run with the clock seam set (expired points also under a requested summary name); the same grid on a layout with a key table, a step with rules and a satisfying link (every {5} notation); sub-layout grid = same expiry texts on a delegated layout under an unexpired parent (every {} notation); non-trivial = notations the reference reader understands",
         BASES.len(), OFFSETS.len(), FRACS.len(), STYLES.len(), DELTAS.len(), sub_every
-    ) + "; wall-clock leg: expiry = real clock + {-1y,-1d,-1h,-2s,+1h,+1d,+1y} and the absolute years 0002, 1000, 1700 in 4 offset notations, hooks-off binary, under 4 process time zones";
+    ) + "; wall-clock leg: expiry = real clock + {-1y,-1d,-1h,-2s,+1h,+1d,+1y} and the absolute years 0002, 1000, 1700 in 4 offset notations, hooks-off binary, under 4 process time zones; ageing leg: one hooks-off process verifies, then verifies layouts (two top-level, one delegated) expiring 2-3 s later, before and after their expiry";
     c.bound_completed = "complete grid".into();
     c.assume("chrono's DateTime::from_timestamp builds the instant it is given (the verification time is constructed from the reference reader's nanoseconds)");
     c.assume("the clock seam (hook H3) is the only time source of the verdict path");
